@@ -4,9 +4,9 @@ import json, os, re, glob
 
 ROOT = "/verif/seeded"
 res = {}
-if os.path.exists("/tmp/seed_results.txt"):
-    for l in open("/tmp/seed_results.txt"):
-        m = re.match(r'^(C\d\d[ab]) (C\d\d) rc=(\d+)\s*(.*)$', l.strip())
+if os.path.exists("/verif/seeded/last_sweep.txt"):
+    for l in open("/verif/seeded/last_sweep.txt"):
+        m = re.match(r'^(C\d\d[a-d]) (C\d\d) rc=(\d+)\s*(.*)$', l.strip())
         if m:
             res[m.group(1)] = {"check": m.group(2), "rc": int(m.group(3)), "lines": m.group(4)}
 props = {json.loads(l)["id"]: json.loads(l) for l in open("/verif/properties.jsonl")}
@@ -17,7 +17,7 @@ for d in sorted(glob.glob(ROOT + "/C*")):
     notes = open(os.path.join(d, "agent_notes.md")).read() if os.path.exists(os.path.join(d, "agent_notes.md")) else ""
     # the section of this mutation
     secs = re.split(r'\n(?=#+ *Mutation)', notes)
-    want = "A" if ab == "a" else "B"
+    want = {"a": "A", "b": "B", "c": "C", "d": "D"}[ab]
     sec = next((s for s in secs if re.match(r'#+ *Mutation %s\b' % want, s)), None)
     if sec is None:
         sec = notes
